@@ -107,7 +107,7 @@ impl PubSocketBackend {
 //@ receiver-mut
 // the multiset lemmas in reach cover Vec::push and Vec::remove(index); another way of updating the list is undecided
 //@ shapes "subscriptions.push("
-//@ shapes "subscriptions.remove(index)"
+//@ shapes "subscriptions.remove("
 //@ subst-re "(\w+)\.subscriptions\.iter\(\)\.position\(\|s\| s == &sub\)"
 //@|    assumed_position(&\1.subscriptions, &sub)
 //@ spec
@@ -155,7 +155,7 @@ impl XPubSocketBackend {
 //@ receiver-mut
 // the multiset lemmas in reach cover Vec::push and Vec::remove(index); another way of updating the list is undecided
 //@ shapes "subscriptions.push("
-//@ shapes "subscriptions.remove(index)"
+//@ shapes "subscriptions.remove("
 //@ subst-re "(\w+)\.subscriptions\.iter\(\)\.position\(\|s\| s == &sub\)"
 //@|    assumed_position(&\1.subscriptions, &sub)
 //@ spec
